@@ -1022,3 +1022,133 @@ Proof.
   - rewrite <- Hc at 2. apply run_steps_ok; assumption.
   - eapply run_twin_ok; [reflexivity|exact Hops|exact Hi].
 Qed.
+
+(* ------------------------------------------------------------------ F. Prop-level readings *)
+(* the adapter, run over a whole history from its own successive states, agrees at every step with
+   the std operation applied to the same state *)
+Fixpoint lockstep (md : mode) (k : skind) (st : sstate) (ops : list op13) {struct ops} : Prop :=
+  match ops with
+  | [] => True
+  | o :: t =>
+      exists st' b' rc ost bs,
+        vm_step md k st o = Val ((st', arena b'), rc) /\ std_step k st o = Val (ost, bs, rc)
+        /\ nlen b' = nlen (op_buf o)
+        /\ (rc_success rc = true ->
+              ost = Some st' /\ (is_read o = true -> b' = bs ++ ndrop (nlen bs) (op_buf o)))
+        /\ (is_read o = false -> b' = op_buf o)
+        /\ lockstep md k (clear_out st') t
+  end.
+
+Lemma lockstep_lemma : forall md k content ops st, Forall (op_wf k) ops -> st_inv k content st (sum_len ops) ->
+  lockstep md k st ops.
+Proof.
+  intros md k content. induction ops as [|o ops IH]; intros st Hwf Hi; [exact I|].
+  inversion Hwf as [|? ? Ho Hops]; subst. cbn [sum_len] in Hi.
+  pose proof (step_agree md k content st o (sum_len ops) Ho Hi) as Ha.
+  pose proof (step_inv md k content st o (sum_len ops) Ho Hi) as Hinv.
+  destruct Ha as (st' & b' & rc & ost & bs & Hv & Hs & Hl & Hok & Hko & Hwr).
+  cbn [lockstep]. exists st', b', rc, ost, bs. split; [exact Hv|]. split; [exact Hs|]. split; [exact Hl|].
+  split; [intros H; destruct (Hok H) as (A & _ & B); auto|]. split; [exact Hwr|].
+  apply IH; [exact Hops|]. eapply Hinv. exact Hv.
+Qed.
+
+Lemma adapter_eq_std_lemma : forall md k content st o budget,
+  op_wf k o -> st_inv k content st (nlen (op_buf o) + budget) ->
+  exists st' b' rc ost bs,
+    vm_step md k st o = Val ((st', arena b'), rc) /\ std_step k st o = Val (ost, bs, rc)
+    /\ nlen b' = nlen (op_buf o)
+    /\ (rc_success rc = true ->
+          ost = Some st' /\ nlen bs <= nlen (op_buf o)
+          /\ (is_read o = true -> b' = bs ++ ndrop (nlen bs) (op_buf o)))
+    /\ (rc_success rc = false -> ost = None)
+    /\ (is_read o = false -> b' = op_buf o).
+Proof. intros. eapply step_agree; eassumption. Qed.
+
+Lemma never_beyond_buffer_lemma : forall md k content st o budget st' m rc,
+  op_wf k o -> st_inv k content st (nlen (op_buf o) + budget) ->
+  vm_step md k st o = Val ((st', m), rc) ->
+  nlen m = nlen (arena (op_buf o))
+  /\ ntake margin m = ntake margin (arena (op_buf o))
+  /\ ndrop (margin + nlen (op_buf o)) m = ndrop (margin + nlen (op_buf o)) (arena (op_buf o))
+  /\ (is_read o = false -> m = arena (op_buf o)).
+Proof.
+  intros md k content st o budget st' m rc Ho Hi H.
+  destruct (step_agree md k content st o budget Ho Hi) as (s1 & b' & rc1 & ost & bs & Hv & _ & Hl & _ & _ & Hwr).
+  rewrite Hv in H. inversion H; subst. split; [rewrite !nlen_arena; lia|]. split.
+  - rewrite !arena_eq, !ntake_margin. reflexivity.
+  - split; [|intros Hr; rewrite (Hwr Hr); reflexivity]. rewrite !arena_eq.
+    rewrite !(ndrop_app_ge _ Cm) by (rewrite nlen_Cm; lia). rewrite nlen_Cm.
+    replace (margin + nlen (op_buf o) - margin) with (nlen (op_buf o)) by lia.
+    rewrite ndrop_app_exact. rewrite <- Hl, ndrop_app_exact. reflexivity.
+Qed.
+
+(* how much an in-memory stream can still deliver / take *)
+Definition room_of (k : skind) (st : sstate) : N :=
+  match k with
+  | KSliceR | KSliceW => nlen (slice_rem st)
+  | _ => nlen (s_data st) - cur_start st
+  end.
+Definition is_exact13 (o : op13) : bool := match o with OReadExact _ | OWriteAll _ => true | _ => false end.
+
+Lemma exact_ok_iff_lemma : forall md k content st o budget st' m rc,
+  op_wf k o -> st_inv k content st (nlen (op_buf o) + budget) -> is_exact13 o = true ->
+  vm_step md k st o = Val ((st', m), rc) ->
+  match k with
+  | KVecW => rc = (1, 0)
+  | KSliceR | KCurR | KSliceW | KCurW =>
+      (nlen (op_buf o) <= room_of k st -> rc = (1, 0))
+      /\ (room_of k st < nlen (op_buf o) -> rc = if is_read o then (2, 0) else (3, 0))
+  | KFile | KQueue => exists ost bs, std_step k st o = Val (ost, bs, rc)
+  end.
+Proof.
+  intros md k content st o budget st' m rc Ho Hi Hx H.
+  destruct (agree_state _ _ _ _ _ _ (step_agree md k content st o budget Ho Hi) H) as (ost & bs & Hs & _).
+  destruct Ho as (Hal & _).
+  destruct o as [pre|pre|d|d|p]; try discriminate; destruct k; cbn [op_allowed] in Hal; try discriminate;
+    cbn [op_buf room_of is_read]; try (exists ost, bs; exact Hs); unfold std_step in Hs.
+  - unfold std_slice_read_exact in Hs. destruct (N.leb_spec (nlen pre) (nlen (slice_rem st))); inversion Hs; subst;
+      split; intros; try reflexivity; lia.
+  - unfold std_cursor_read_exact in Hs. destruct (N.leb_spec (nlen pre) (nlen (s_data st) - cur_start st));
+      inversion Hs; subst; split; intros; try reflexivity; lia.
+  - unfold std_mslice_write_all in Hs. destruct (N.leb_spec (nlen d) (nlen (slice_rem st))); inversion Hs; subst;
+      split; intros; try reflexivity; lia.
+  - unfold std_vec_write in Hs. inversion Hs. reflexivity.
+  - unfold std_cursor_write_all in Hs. destruct (N.leb_spec (nlen d) (nlen (s_data st) - cur_start st));
+      inversion Hs; subst; split; intros; try reflexivity; lia.
+Qed.
+
+(* the default loops against ANY OS oracle (short reads, EINTR, errors in any order) *)
+Lemma default_read_exact_eq_std_lemma : forall (F : Type) (os_read : F -> N -> F * os_rres),
+  (forall f len f' bs, os_read f len = (f', OsData bs) -> nlen bs <= len) ->
+  forall fuel f b of out r, buf_ok b ->
+  std_fd_read_exact os_read fuel f (nlen b) [] = Val (of, out, r) ->
+  forall fuel', (fuel <= fuel')%nat ->
+  exists f' b', read_exact_volatile fuel' (read_volatile_raw_fd os_read) f (arena b) (win b) = Val ((f', arena b'), r)
+    /\ nlen b' = nlen b /\ (r = Ok tt -> of = Some f' /\ out = b') /\ (r <> Ok tt -> of = None).
+Proof.
+  intros F os_read Hb fuel f b of out r Hbuf Hstd fuel' Hf.
+  unfold read_exact_volatile, exact_volatile. rewrite (win_offset0 b Hbuf).
+  destruct (fd_read_exact_sim F os_read (fun f _ => (f, OsCount 0)) Hb
+              ltac:(intros ? ? ? ? E; inversion E; lia) (4096 + margin) fuel f [] b of out r)
+    with (fi := fuel') (fo := fuel') as (f' & b' & He & Hrest);
+    try (unfold buf_ok in Hbuf; cbn [nlen length N.of_nat]; lia).
+  { cbn [nlen length N.of_nat]. rewrite N.sub_0_r. exact Hstd. }
+  exists f', b'. split; [|exact Hrest]. exact He.
+Qed.
+Lemma default_write_all_eq_std_lemma : forall (F : Type) (os_write : F -> list N -> F * os_wres),
+  (forall f d f' n, os_write f d = (f', OsCount n) -> n <= nlen d) ->
+  forall fuel f d of r, buf_ok d ->
+  std_fd_write_all os_write fuel f d = Val (of, r) ->
+  forall fuel', (fuel <= fuel')%nat ->
+  exists f', write_all_volatile fuel' (write_volatile_raw_fd os_write) f (arena d) (win d) = Val ((f', arena d), r)
+    /\ (r = Ok tt -> of = Some f') /\ (r <> Ok tt -> of = None).
+Proof.
+  intros F os_write Hb fuel f d of r Hbuf Hstd fuel' Hf.
+  unfold write_all_volatile, exact_volatile. rewrite (win_offset0 d Hbuf).
+  destruct (fd_write_all_sim F (fun f _ => (f, OsData [])) os_write
+              ltac:(intros ? ? ? ? E; inversion E; cbn; lia) Hb (4096 + margin) fuel f 0 d of r)
+    with (fi := fuel') (fo := fuel') as (f' & He & Hrest);
+    try (unfold buf_ok in Hbuf; lia).
+  { exact Hstd. }
+  exists f'. split; [|exact Hrest]. exact He.
+Qed.
